@@ -273,6 +273,65 @@ Proof.
     rewrite Hc0 in Hc1. rewrite <- Hc1 in Htok. discriminate.
 Qed.
 
+(* the same with the buffer length, which gives strict progress: the token is
+   gone and the read position is at least one octet into what is left *)
+Lemma scan_ascii_str_good2 {A} (op : list N -> outcome A) s :
+  (forall l, no_panic (op l)) -> PInv s ->
+  good (fun rs => PInv (snd rs) /\ length (buf (snd rs)) = (length (buf s) - start s)%nat) (scan_ascii_str op s).
+Proof.
+  intros Hop (HI & H1 & Hfr). unfold scan_ascii_str.
+  destruct (require_token s) as [[]| | |] eqn:Erq; cbn [bind good]; auto;
+    try (unfold require_token in Erq; destruct (scat s); discriminate).
+  assert (Htok : is_token (scat s) = true).
+  { unfold require_token in Erq. destruct (scat s); try discriminate; reflexivity. }
+  pose proof (trim_to_spec s (start s) HI) as T. rewrite Nat.leb_refl in T.
+  destruct T as (s0 & E0 & HI0 & Hst0 & Hr0 & Hc0 & _). rewrite E0. cbn [bind].
+  assert (HL0 : length (buf s0) = (length (buf s) - start s)%nat).
+  { unfold trim_to in E0. rewrite Nat.leb_refl in E0. injection E0 as <-. cbn [buf]. apply skipn_length. }
+  rewrite Nat.sub_diag in Hst0.
+  assert (Hfu : (length (rest s0) < fuel_of s0)%nat).
+  { rewrite (rest_length s0 HI0). unfold fuel_of. lia. }
+  destruct (ascii_loop_total (fuel_of s0) s0 0 HI0 Hfu) as (s1 & c & E1 & HI1 & Hs1 & Hb1 & Hc1).
+  pose proof (ascii_loop_cnt _ _ _ _ _ HI0 E1) as (Hcnt & _ & Hcnt2).
+  rewrite E1. cbn [bind fst snd].
+  assert (Tail : forall s2 w2, TEnd s2 w2 -> length (buf s2) = length (buf s0) ->
+     good (fun rs : A * sbuf => PInv (snd rs) /\ length (buf (snd rs)) = (length (buf s) - start s)%nat)
+          (do r <- op (firstn w2 (buf s2)); do s3 <- next_item s2; Ok (r, s3))).
+  { intros s2 w2 HT HL2. specialize (Hop (firstn w2 (buf s2))).
+    destruct (op (firstn w2 (buf s2))); cbn [bind good no_panic] in *; auto.
+    eapply good_bind; [apply next_item_after_token; apply (TEnd_weaken s2 w2 0); [lia|exact HT]|].
+    intros s3 _ (HI3 & Hw3 & Hf3 & Hb3). cbn [good snd]. split; [|rewrite Hb3, HL2; exact HL0].
+    split; [exact HI3|]. split; [lia|exact Hf3]. }
+  destruct (scat s1) eqn:Ec1; cbn [bind fst snd].
+  - apply Tail; [|rewrite Hb1; reflexivity]. split; [exact HI1|]. split; [rewrite Ec1; reflexivity|].
+    destruct Hc1 as [Hc1 | (Q0 & _ & Hlt)].
+    { rewrite Hc0 in Hc1. rewrite <- Hc1 in Htok. discriminate. }
+    left. assert (D : CNone <> scat s0) by congruence. specialize (Hcnt2 D). lia.
+  - assert (Hfu1 : (length (rest s1) < fuel_of s1)%nat).
+    { rewrite (rest_length s1 HI1). unfold fuel_of. lia. }
+    eapply good_bind; [apply (write_loop_end into_ascii (fuel_of s1) s1 c HI1 ltac:(lia)
+                                 ltac:(rewrite Ec1; reflexivity) Hfu1)|].
+    intros [s2 w2] _ (HT & _ & _ & HL & _). cbn [fst snd] in *. apply Tail; [exact HT|rewrite HL, Hb1; reflexivity].
+  - assert (Hfu1 : (length (rest s1) < fuel_of s1)%nat).
+    { rewrite (rest_length s1 HI1). unfold fuel_of. lia. }
+    eapply good_bind; [apply (write_loop_end into_ascii (fuel_of s1) s1 c HI1 ltac:(lia)
+                                 ltac:(rewrite Ec1; reflexivity) Hfu1)|].
+    intros [s2 w2] _ (HT & _ & _ & HL & _). cbn [fst snd] in *. apply Tail; [exact HT|rewrite HL, Hb1; reflexivity].
+  - destruct Hc1 as [Hc1 | (_ & Q1 & _)]; [|congruence].
+    rewrite Hc0 in Hc1. rewrite <- Hc1 in Htok. discriminate.
+Qed.
+
+
+Lemma while_ascii_good : forall fuel s, PInv s -> (length (buf s) - start s < fuel)%nat ->
+  good PInv (while_ascii fuel s).
+Proof.
+  induction fuel as [|f IH]; intros s HP Hf; [lia|].
+  cbn [while_ascii]. destruct (is_token (scat s)); [|exact HP].
+  eapply good_bind; [apply (scan_ascii_str_good2 (fun _ : list N => Ok tt) s); [intros l; exact I|exact HP]|].
+  intros [r s1] _ (HP1 & HL). cbn [snd] in *. apply IH; [exact HP1|].
+  destruct HP1 as (HI1 & H11 & _). unfold Inv in HI1. lia.
+Qed.
+
 (* ------------------------------------------- skip_at_token, skip_unknown_marker *)
 
 Lemma peek_token s sym : peek_symbol s = Some sym -> is_token (scat s) = true /\ exists n, sym_at (rest s) = SymOk sym n.
@@ -815,6 +874,119 @@ Proof.
 Qed.
 End ConvGood.
 
+(* ------------------------------------------------------------ convert_token *)
+
+Definition ad_post2 (s : sbuf) (w : nat) (data : list N) (b : option (list N))
+  (x : sbuf * nat * option (list N)) : Prop :=
+  let '(s', w', b') := x in
+  Inv s' /\ start s' = start s /\ scat s' = scat s /\ rest s' = rest s /\
+  (b' = None -> b = None /\ w' = (w + length data)%nat).
+
+Lemma append_data_good2 s data w b : Inv s -> (b = None -> (w <= start s)%nat) ->
+  good (ad_post2 s w data b) (append_data s data w b).
+Proof.
+  intros HI Hw. unfold append_data. destruct b as [bl|].
+  - cbn [good ad_post2]. repeat split; auto; discriminate.
+  - specialize (Hw eq_refl). destruct (Nat.ltb (start s) (w + length data)) eqn:El.
+    + assert (Lw : Nat.leb w (length (buf s)) = true) by (apply Nat.leb_le; unfold Inv in *; lia).
+      rewrite Lw. cbn [good ad_post2]. repeat split; auto; discriminate.
+    + apply Nat.ltb_ge in El.
+      destruct (store_list_good data s w HI El) as (s1 & E1 & A & B & C & D & F). rewrite E1.
+      cbn [bind good ad_post2]. repeat split; auto.
+Qed.
+
+Section ConvTokGood.
+Variable St : Type.
+Variable process : St -> symbol -> outcome (St * list N).
+Variable tail_data : St -> outcome (list N).
+Variable SI : St -> Prop.
+(* symbols consumed whose output has not been handed out yet: the converter
+   never hands out more octets than it has consumed symbols *)
+Variable credit : St -> nat.
+Hypothesis Hproc : forall h sym, SI h ->
+  good (fun x => SI (fst x) /\ (credit (fst x) + length (snd x) <= credit h + 1)%nat) (process h sym).
+Hypothesis Htail : forall h, SI h -> good (fun d => (length d <= credit h)%nat) (tail_data h).
+
+Definition ct2_post (s : sbuf) (x : St * sbuf * nat * option (list N)) : Prop :=
+  let '(h', s', w', b') := x in
+  SI h' /\ Inv s' /\ is_token (scat s') = false /\ (start s <= start s')%nat /\
+  (b' = None -> TEnd s' (w' + credit h')).
+
+Lemma convert_token_loop_good2 : forall fuel h s w b, SI h ->
+  Inv s -> (b = None -> (w + credit h <= start s)%nat) -> is_token (scat s) = true ->
+  (length (rest s) < fuel)%nat ->
+  good (ct2_post s) (convert_token_loop St process fuel h s w b).
+Proof.
+  induction fuel as [|f IH]; intros h s w b HS HI Hw Ht Hf; [lia|].
+  cbn [convert_token_loop].
+  pose proof (next_symbol_gen_no_panic (fun _ => true) s) as NP. fold next_symbol in NP.
+  destruct (next_symbol s) as [[r s1]| | |] eqn:E; cbn [bind good]; auto.
+  pose proof (next_symbol_gen_inv _ _ _ _ HI E) as (HI1 & Hb & Hs & Hr & _).
+  destruct r as [sym|].
+  - destruct (Hr ltac:(discriminate)) as [Hlt Ht1].
+    assert (Hf1 : (length (rest s1) < f)%nat).
+    { rewrite (rest_length s HI) in Hf. rewrite (rest_length s1 HI1). unfold Inv in *. rewrite Hb in *. lia. }
+    pose proof (Hproc h sym HS) as Hp. destruct (process h sym) as [[h1 data]| | |]; cbn [bind good fst snd] in *; auto.
+    destruct Hp as (HS1 & Hcr).
+    assert (Rec : forall s2 w2 b2, Inv s2 -> start s2 = start s1 -> scat s2 = scat s1 -> rest s2 = rest s1 ->
+              (b2 = None -> (w2 + credit h1 <= start s2)%nat) ->
+              good (ct2_post s) (convert_token_loop St process f h1 s2 w2 b2)).
+    { intros s2 w2 b2 A B C D G.
+      specialize (IH h1 s2 w2 b2 HS1 A G ltac:(congruence) ltac:(rewrite D; exact Hf1)).
+      destruct (convert_token_loop St process f h1 s2 w2 b2) as [[[[h' s'] w'] b']| | |];
+        cbn [good ct2_post] in *; auto.
+      destruct IH as (Q0 & Q1 & Q2 & Q3 & Q4). split; [exact Q0|]. split; [exact Q1|]. split; [exact Q2|].
+      split; [lia|exact Q4]. }
+    destruct data as [|d0 dt].
+    + apply Rec; auto. intros Eb. specialize (Hw Eb). cbn [length] in Hcr. lia.
+    + eapply good_bind; [apply (append_data_good2 s1 (d0 :: dt) w b HI1)|].
+      { intros Eb. specialize (Hw Eb). lia. }
+      intros [[s2 w2] b2] _ P. cbn [ad_post2] in P. destruct P as (A & B & C & D & G).
+      apply Rec; auto. intros Eb. destruct (G Eb) as [Eb0 ->]. specialize (Hw Eb0). rewrite B. lia.
+  - destruct (next_symbol_end _ _ HI Ht E) as (Hn & _ & _ & _ & Hd).
+    cbn [good ct2_post]. split; [exact HS|]. split; [exact HI1|]. split; [exact Hn|].
+    split; [exact Hs|]. intros Eb. specialize (Hw Eb).
+    split; [exact HI1|]. split; [exact Hn|].
+    destruct Hd as [Hd | Hd]; [left; lia | right; split; [lia|exact Hd]].
+Qed.
+
+Lemma convert_token_good init s : SI init -> credit init = 0%nat -> PInv s ->
+  good (fun rs => PInv (snd rs)) (convert_token St process tail_data init s).
+Proof.
+  intros HS0 Hc0 (HI & H1 & Hfr). unfold convert_token.
+  destruct (require_token s) as [[]| | |] eqn:Erq; cbn [bind good]; auto;
+    try (unfold require_token in Erq; destruct (scat s); discriminate Erq).
+  assert (Ht : is_token (scat s) = true).
+  { unfold require_token in Erq. destruct (scat s); try discriminate Erq; reflexivity. }
+  assert (Hfu : (length (rest s) < fuel_of s)%nat) by (rewrite (rest_length s HI); unfold fuel_of; lia).
+  eapply good_bind; [apply (convert_token_loop_good2 (fuel_of s) init s 0 None HS0 HI ltac:(intros _; lia) Ht Hfu)|].
+  intros [[[h1 s1] w1] b1] _ P. cbn [ct2_post] in P. destruct P as (HS1 & HI1 & Hn1 & Hs1 & HT1).
+  set (wz := match b1 with None => (w1 + credit h1)%nat | Some _ => 0%nat end).
+  assert (HTz : TEnd s1 wz).
+  { unfold wz. destruct b1; [|apply HT1; reflexivity].
+    split; [exact HI1|]. split; [exact Hn1|]. left. lia. }
+  eapply good_bind; [apply next_item_after_token; exact HTz|].
+  intros s2 _ (HI2 & Hw2 & Hf2 & _).
+  eapply good_bind; [apply Htail; exact HS1|]. intros data _ Hd. cbn beta in Hd.
+  assert (Fin : forall s3 w3 b3, Inv s3 -> start s3 = start s2 -> scat s3 = scat s2 -> rest s3 = rest s2 ->
+            (b3 = None -> b1 = None /\ (w3 <= w1 + length data)%nat) ->
+            good (fun rs : list N * sbuf => PInv (snd rs))
+                 (match b3 with Some bl => Ok (bl, s3) | None => split_to s3 w3 end)).
+  { intros s3 w3 b3 A B C D G.
+    assert (Hf3 : fresh s3) by (intros Eu; rewrite C in Eu; rewrite D; apply Hf2; exact Eu).
+    destruct b3 as [bl|].
+    - cbn [good snd]. split; [exact A|]. split; [lia|exact Hf3].
+    - destruct (G eq_refl) as [Eb Hle]. apply split_to_PInv; auto. unfold wz in Hw2. rewrite Eb in Hw2. cbn iota in Hw2. lia. }
+  destruct data as [|d0 dt].
+  - cbn [bind]. apply Fin; auto. intros Eb. split; [exact Eb|cbn; lia].
+  - eapply good_bind; [apply (append_data_good2 s2 (d0 :: dt) w1 b1 HI2)|].
+    { intros Eb. unfold wz in Hw2. rewrite Eb in Hw2. cbn iota in Hw2. lia. }
+    intros [[s3 w3] b3] _ P. cbn [ad_post2] in P. destruct P as (A & B & C & D & G).
+    apply Fin; auto. intros Eb. destruct (G Eb) as [Eb0 ->]. split; [exact Eb0|lia].
+Qed.
+End ConvTokGood.
+
+
 Lemma b64_tail_total c : no_panic (b64_tail c).
 Proof.
   unfold b64_tail, C18.Model.c64_process_tail, b64_err.
@@ -901,6 +1073,98 @@ Qed.
 
 (* ------------------------------------------------ sequences of method calls *)
 
+(* the two NSEC3 converters *)
+Definition salt_credit (st : saltst) : nat :=
+  match st with SaltHex h _ => if h_pending h then 1%nat else 0%nat | _ => 0%nat end.
+
+Lemma hex_process_credit h sym :
+  good (fun x : hexst * list N =>
+          ((if h_pending (fst x) then 1 else 0) + length (snd x) <= (if h_pending h then 1 else 0) + 1)%nat)
+       (hex_process h sym).
+Proof.
+  unfold hex_process. destruct (into_char sym); [|exact I].
+  destruct (hex_digit n); [|exact I]. destruct (h_pending h); cbn; lia.
+Qed.
+
+Lemma salt_process_good st sym :
+  good (fun x => True /\ (salt_credit (fst x) + length (snd x) <= salt_credit st + 1)%nat) (salt_process st sym).
+Proof.
+  assert (H : forall h len, good (fun x => True /\ (salt_credit (fst x) + length (snd x) <= (if h_pending h then 1 else 0) + 1)%nat)
+                             (salt_hex h len sym)).
+  { intros h len. unfold salt_hex. pose proof (hex_process_credit h sym) as C.
+    destruct (hex_process h sym) as [[h1 d]| | |]; cbn [bind good fst snd] in *; auto.
+    destruct (Nat.ltb 255 (len + length d)); cbn [good salt_credit fst snd]; auto. }
+  destruct st as [| |h len]; cbn [salt_process salt_credit].
+  - specialize (H (mkH false 0) 0%nat). cbn [h_pending] in H.
+    destruct (into_char sym) as [c|]; [|exact H].
+    destruct (N.eqb_spec c 45) as [->|Hne]; [cbn; split; [exact I|lia]|].
+    destruct c as [|p]; [exact H|]. repeat (destruct p as [p|p|]; try exact H). congruence.
+  - exact I.
+  - apply H.
+Qed.
+
+Lemma salt_tail_good st : good (fun d : list N => (length d <= salt_credit st)%nat) (salt_tail st).
+Proof.
+  destruct st as [| |h len]; cbn [salt_tail good length]; try lia.
+  unfold hex_tail. destruct (h_pending h); cbn; lia.
+Qed.
+
+Lemma convert_token_salt_good s : PInv s -> good (fun rs => PInv (snd rs)) (convert_token_salt s).
+Proof.
+  apply (convert_token_good saltst salt_process salt_tail (fun _ => True) salt_credit); auto.
+  - intros h sym _. apply salt_process_good.
+  - intros h _. apply salt_tail_good.
+Qed.
+
+Definition hash_si (st : C18.Model.conv32 * nat) : Prop := C18.Model.c32_next (fst st) < 8.
+Definition hash_credit (st : C18.Model.conv32 * nat) : nat := N.to_nat (C18.Model.c32_next (fst st)).
+
+Lemma b32_tab_total ch : ch <= 127 -> exists v, C18.Model.tab_get C18.Gen.b32_decode_tab ch = Ok v.
+Proof.
+  intros H. unfold C18.Model.tab_get.
+  assert (L : length C18.Gen.b32_decode_tab = 128%nat) by (vm_compute; reflexivity).
+  destruct (nth_error C18.Gen.b32_decode_tab (N.to_nat ch)) eqn:E; [eauto|].
+  apply nth_error_None in E. lia.
+Qed.
+
+Lemma hash_process_good st sym : hash_si st ->
+  good (fun x => hash_si (fst x) /\ (hash_credit (fst x) + length (snd x) <= hash_credit st + 1)%nat)
+       (hash_process st sym).
+Proof.
+  destruct st as [c len]. unfold hash_si, hash_credit, hash_process. cbn [fst snd]. intros HS.
+  destruct (into_char sym) as [ch|]; [|exact I].
+  unfold C18.Model.c32_process_char.
+  destruct (C18.Gen.b32_conv_ascii_max <? ch) eqn:Ea; [cbn; exact I|].
+  apply N.ltb_ge in Ea. assert (Ha : ch <= 127) by (unfold C18.Gen.b32_conv_ascii_max in Ea; exact Ea).
+  destruct (b32_tab_total ch Ha) as (v & Ev). rewrite Ev. cbn [bind].
+  destruct (v =? C18.Gen.b32_conv_illegal_val); [cbn; exact I|].
+  unfold C18.Model.buf8_set. destruct (C18.Model.c32_input c) as [[[[[[[b0 b1] b2] b3] b4] b5] b6] b7].
+  assert (Hg : C18.Gen.b32_conv_group = 8) by reflexivity. rewrite Hg.
+  set (n := C18.Model.c32_next c) in *.
+  assert (Hn : n = 0 \/ n = 1 \/ n = 2 \/ n = 3 \/ n = 4 \/ n = 5 \/ n = 6 \/ n = 7) by lia.
+  destruct Hn as [-> | [-> | [-> | [-> | [-> | [-> | [-> | ->]]]]]]]; cbn [N.eqb Pos.eqb bind b32_err N.add Pos.add Pos.succ];
+    unfold hash_check; cbn [fst snd length];
+    match goal with |- context [Nat.ltb 255 ?x] => destruct (Nat.ltb 255 x) end; cbn; auto; split; lia.
+Qed.
+
+Lemma hash_tail_good st : hash_si st -> good (fun d : list N => (length d <= hash_credit st)%nat) (hash_tail st).
+Proof.
+  destruct st as [c len]. unfold hash_si, hash_credit, hash_tail, C18.Model.c32_process_tail. cbn [fst snd]. intros HS.
+  set (n := C18.Model.c32_next c) in *.
+  assert (Hn : n = 0 \/ n = 1 \/ n = 2 \/ n = 3 \/ n = 4 \/ n = 5 \/ n = 6 \/ n = 7) by lia.
+  destruct Hn as [-> | [-> | [-> | [-> | [-> | [-> | [-> | ->]]]]]]]; cbn; unfold hash_check; cbn [length];
+    try match goal with |- context [Nat.ltb 255 ?x] => destruct (Nat.ltb 255 x) end; cbn; auto; lia.
+Qed.
+
+Lemma convert_token_hash_good s : PInv s -> good (fun rs => PInv (snd rs)) (convert_token_hash s).
+Proof.
+  apply (convert_token_good _ hash_process hash_tail hash_si hash_credit).
+  - intros h sym HS. apply hash_process_good; exact HS.
+  - intros h HS. apply hash_tail_good; exact HS.
+  - unfold hash_si. cbn. lia.
+  - reflexivity.
+Qed.
+
 Definition meth_ok (m : meth) : Prop := match m with MUint _ c => c = true | _ => True end.
 
 Lemma good_drop {A} (o : outcome (A * sbuf)) :
@@ -919,6 +1183,9 @@ Proof.
   - apply good_drop. apply scan_charstr_entry_good; exact HP.
   - apply good_drop. apply convert_entry_hex_good; exact HP.
   - apply good_drop. apply convert_entry_b64_good; exact HP.
+  - apply while_ascii_good; [exact HP|lia].
+  - apply good_drop. apply convert_token_salt_good; exact HP.
+  - apply good_drop. apply convert_token_hash_good; exact HP.
 Qed.
 
 Theorem run_meths_good origin ms : Forall meth_ok ms -> forall s, PInv s -> good PInv (run_meths origin ms s).
@@ -951,7 +1218,7 @@ Lemma schema_matches_source :
                     | Some fs => if list_eq_dec N.eq_dec (map field_code fs) (snd x) then true else false
                     | None => true end) type_scans = true
   /\ forallb (fun rt => match schema rt with Some _ => existsb (fun x => fst x =? rt) type_scans | None => false end)
-       [1; 2; 3; 4; 5; 6; 7; 8; 9; 12; 13; 14; 15; 16; 17; 33; 35; 39; 44; 52; 61] = true.
+       [1; 2; 3; 4; 5; 6; 7; 8; 9; 12; 13; 14; 15; 16; 17; 33; 35; 39; 44; 51; 52; 61] = true.
 Proof. vm_compute. split; reflexivity. Qed.
 
 Lemma decode_meth_ok c m : decode_meth c = Some m -> meth_ok m.
